@@ -115,6 +115,21 @@ PROPS = {
              "thorough": {"runs": 400000, "max_wall_s": 1500, "minimise_s": 60}},
         ],
     },
+    "C16": {
+        "level": "exploration",
+        "rule": "dynamic half only: error values nested to depth 4 from the repository's primitives (SMTP-annotated errors incl. multi-line, non-ASCII and U+0080 texts, temporary markers, field wrappers, %w wrappers, network errors, plain errors carrying a secret marker) are injected at every target/check/modifier stage behind the real endpoint (part 1) and at every downstream stage under the real queue (part 2); every reply line read by the scripted clients and every per-recipient group of every failure report is checked for class coherence (basic vs enhanced vs injected class vs retry behaviour), ASCII-only replies without SMTPUTF8, and absence of the secret marker; non-trivial = at least one fault fired",
+        "real": ["internal/endpoint/smtp (wrapErr and reply paths)", "go-smtp server", "internal/msgpipeline", "internal/target/queue (toSMTPErr, retry decision, emitDSN)", "internal/dsn", "framework/exterrors"],
+        "stub": ["targets/checks/modifiers (scripted, producing the error values)", "SMTP clients", "bounce target"],
+        "assumptions": COMMON_ASSUME + ["only self-consistent error values are injected (Temporary() markers and SMTP code classes along one Unwrap chain agree)", "the static half of the statement (all SMTP error literals in the source tree) is not decided by simulation"],
+        "parts": [
+            {"pkg": "ep", "world": "ep",
+             "quick": {"runs": 3000, "max_wall_s": 150, "minimise_s": 20},
+             "thorough": {"runs": 300000, "max_wall_s": 1500, "minimise_s": 60}},
+            {"pkg": "qa", "world": "qa", "seed_salt": 0x16,
+             "quick": {"runs": 4000, "max_wall_s": 120, "minimise_s": 20},
+             "thorough": {"runs": 300000, "max_wall_s": 1500, "minimise_s": 60}},
+        ],
+    },
 }
 
 # ---------------------------------------------------------------- manifest metadata
@@ -156,6 +171,10 @@ META = {
             "design_ref": "DESIGN.md section 6 (C06)",
             "level_text": "Seeded exploration over check placements, verdict assignments, SMTP/LMTP and completion orders; the outcome is compared with an order-independent reference model, call counts per stage are checked against the documented once-per-message rule.",
             "level_note": "Fixed configuration family; DMARC and the remote target's quarantine refusal are outside this world."},
+    "C16": {"technique": "deterministic simulation: generated nested error values injected at every stage behind the real endpoint and under the real queue; coherence oracle on every reply line and every failure-report entry",
+            "design_ref": "DESIGN.md section 6 (C16)",
+            "level_text": "Seeded exploration of error values x stages; dynamic half of the statement only (reply conversion of endpoint and queue). The 'all literals in the source tree' half is a static property and is not claimed.",
+            "level_note": "Only self-consistent error values are generated; helper-computed codes are reached where a world contains their call sites."},
 }
 
 NOT_APPLICABLE = [
